@@ -455,8 +455,22 @@ def _wrapping(op):
     return f
 
 
-for _op in ("add", "sub", "mul", "neg"):
+for _op in ("add", "sub", "mul"):
     MODELS["core::num::wrapping_" + _op] = _wrapping(_op)
+
+
+@model("core::num::wrapping_neg")
+def m_wrapping_neg(ctx, args):
+    # signed: -x except at MIN, which maps to itself (no panic); unsigned: 0 - x modulo 2^w
+    ts = _self_int_ty(ctx)
+    x = args[0]
+    if ts.startswith("i") and ts[1:].isdigit():
+        mn = -(1 << (int(ts[1:]) - 1))
+        if x[0] == "int":
+            return ("int", mn if x[1] == mn else -x[1])
+        at_min = ctx.eng.bdd.NOT(ctx.eng.bdd.var(("icmp", "Lt", ("int", mn), x, ts)))     # x <= MIN
+        return ctx.eng.mk_ite(at_min, ("int", mn), ("ineg", x, ts))
+    return ("iwrapneg", x, ts)
 
 
 def _checked(op):
@@ -1266,6 +1280,21 @@ def m_into_iter_value(ctx, a, t):
 def m_enumerate(ctx, args):
     a = as_iter(ctx, args[0], 0)
     return ("iter", ("enumerate", a[1])) if a[0] == "iter" else ("call", ctx.oq, (a,))
+
+
+def _deref_shape(shape):
+    k = shape[0]
+    if k == "refs":
+        return ("vals", shape[1])
+    if k in ("take", "rev", "revall"):
+        return (k, _deref_shape(shape[1])) + tuple(shape[2:])
+    return shape        # references are transparent as values (canon strips refv / deref / copied)
+
+
+@model("std::iter::Iterator::copied", "std::iter::Iterator::cloned")
+def m_iter_copied(ctx, args):
+    a = as_iter(ctx, args[0], 0)
+    return ("iter", _deref_shape(a[1])) if a[0] == "iter" else ("call", ctx.oq, (a,))
 
 
 @model("std::iter::Iterator::take")
